@@ -165,7 +165,7 @@ def scenarios(draw, *, max_machines=6, max_obs=4, max_nodes=6,
               modes=('roomy', 'band'), delays=False, units=False,
               adversary=False, delay_model=False, min_obs=1,
               start_gaps=(0, 0, 0, 1, 1, 2, 3, 5, 10), max_duration=6,
-              few_machines=False, piled_plans=False, overlap=False):
+              few_machines=False, piled_plans=False, overlap=False, limit_binds=False):
     nm = draw(st.integers(2 if overlap else 1, 3 if few_machines else max_machines))
     hetero = draw(st.booleans())
     speeds = (1, 2, 5, 10, 20)
@@ -186,6 +186,9 @@ def scenarios(draw, *, max_machines=6, max_obs=4, max_nodes=6,
     if overlap:      # make simultaneous ingests likely: many arrays, high ingest limit, small demands
         arrays = 8
         max_ingest = nm
+    if limit_binds:  # plenty of machines and arrays, but a small ingest-machine limit that several
+        arrays = 8   # overlapping small-demand ingests run into
+        max_ingest = draw(st.integers(2, 3)) if nm >= 3 else max_ingest
     nobs = draw(st.integers(min_obs, max_obs))
     names = draw(st.lists(st.text(NAME_ALPHABET, min_size=1, max_size=3), min_size=nobs,
                           max_size=nobs, unique=True))
@@ -209,9 +212,10 @@ def scenarios(draw, *, max_machines=6, max_obs=4, max_nodes=6,
         else:
             duration = draw(st.integers(1, max_duration))
             rate = draw(st.sampled_from([1, 2, 3, 5, 10]))
-            demand = draw(st.sampled_from([d for d in ((1, 2) if overlap else (1, 2, 4, 8)) if d <= arrays]))
+            demand = draw(st.sampled_from([d for d in ((1, 2) if (overlap or limit_binds) else (1, 2, 4, 8)) if d <= arrays]))
         o = {"name": names[i], "start": t * u, "duration": duration * u, "demand": demand,
-             "rate": rate, "ingest": draw(st.integers(1, max(1, max_ingest // 2) if overlap else max_ingest)),
+             "rate": rate, "ingest": draw(st.integers(1, (max(1, max_ingest // 2) if overlap else max_ingest) if not limit_binds
+                                                      else draw(st.sampled_from([1, 1, 2])))),
              "wf": draw(dags(max_nodes=max_nodes,
                              speeds=tuple(sorted({m['flops'] * u for m in machines})),
                              bws=tuple(sorted({m['bw'] * u for m in machines}))))}
